@@ -82,6 +82,11 @@ SHADOW = [
     "lambda e: abs(e.b - x)",
     "lambda e: e.jets.Select(lambda j: [x.real for x in j.sub])",
     "lambda e: [[x + y for y in j.sub] for j in e.jets]",
+    "lambda e: (lambda q, x: q + x)(e.a, 1) + x",
+    "lambda e: (lambda x, y: x - y)(e.a, e.b) + y",
+    "lambda e: (lambda q, r, x: q + r + x)(e.a, y, 1)",
+    "lambda e: e.jets.Aggregate(0, lambda acc, x: acc + x.pt) + x",
+    "lambda e: e.jets.Aggregate(y, lambda x, y: x + y.pt)",
 ]
 
 # attribute names that are fields of Python's own ast nodes (F19) on capture-free lambdas
